@@ -1,6 +1,7 @@
 package main
 
 import (
+	"os"
 	"fmt"
 	"go/types"
 	"sort"
@@ -154,7 +155,7 @@ func newExec(w *World, fn *ssa.Function, key string, props []string, discover bo
 	x := &Exec{w: w, em: NewEmitter(), top: fn, trusted: map[string]bool{}, discover: discover,
 		loopMods: map[*ssa.BasicBlock]map[string]bool{}, strConst: map[string]string{}, sumFns: map[string]string{},
 		typeTags: map[string]int{}, ordinals: map[string]int{}, props: props, fnKey: key, sumInst: map[string]bool{},
-		usedContracts: map[string]bool{}, loopRoots: map[*ssa.BasicBlock]map[string][]ssa.Value{}}
+		usedContracts: map[string]bool{}, loopRoots: map[*ssa.BasicBlock]map[string][]ssa.Value{}, opaque: map[string]*opaqueInfo{}}
 	return x
 }
 
@@ -306,6 +307,26 @@ func (fr *Frame) checkPost(vs []*SVal) {
 	}
 	if rv != nil {
 		bindResults(env, fr.fn, rv)
+	}
+	for _, h := range c.Hints {
+		func() {
+			// a hint may mention locals that do not exist yet at an early return: skip it there
+			defer func() {
+				if r := recover(); r != nil {
+					sf, ok := r.(specFail)
+					if !ok {
+						panic(r)
+					}
+					if os.Getenv("GOVC_DEBUG") != "" && !x.discover {
+						fmt.Fprintf(os.Stderr, "hint skipped at a return of %s: %s\n", x.fnKey, sf.msg)
+					}
+				}
+			}()
+			henv := *env
+			henv.inHint = true
+			henv.at = fr.curBlock
+			fr.assume(fr.evalBool(h.Expr, &henv))
+		}()
 	}
 	x.curRets = vs
 	for i, cl := range c.Ensures {
